@@ -301,15 +301,28 @@ pub fn main(args: &[String]) -> i32 {
                     _ => None,
                 };
                 let Some(da) = da else { continue };
+              // alone and next to HardRock / Easy: DifficultyAdjust must only replace the value, not what else the other mods do
+              for with in ["", "HR", "EZ"] {
                 let mut lm = rosu_mods::GameMods::new();
-                lm.insert(da);
+                lm.insert(da.clone());
+                let bits = match (with, mode) {
+                    ("", _) => 0u32,
+                    ("HR", "osu") => { lm.insert(GameMod::HardRockOsu(Default::default())); 16 }
+                    ("HR", "taiko") => { lm.insert(GameMod::HardRockTaiko(Default::default())); 16 }
+                    ("HR", "catch") => { lm.insert(GameMod::HardRockCatch(Default::default())); 16 }
+                    ("HR", _) => { lm.insert(GameMod::HardRockMania(Default::default())); 16 }
+                    (_, "osu") => { lm.insert(GameMod::EasyOsu(Default::default())); 2 }
+                    (_, "taiko") => { lm.insert(GameMod::EasyTaiko(Default::default())); 2 }
+                    (_, "catch") => { lm.insert(GameMod::EasyCatch(Default::default())); 2 }
+                    (_, _) => { lm.insert(GameMod::EasyMania(Default::default())); 2 }
+                };
                 extra += 1;
                 let a = guarded(|| {
                     let d = Difficulty::new().mods(lm.clone());
                     format!("{:?}|{:?}", d.calculate(map), Performance::new(map).difficulty(d.clone()).accuracy(97.0).calculate())
                 });
                 let b = guarded(|| {
-                    let d = Difficulty::new();
+                    let d = Difficulty::new().mods(bits);
                     let d = match field {
                         "ar" => d.ar(x as f32, false),
                         "cs" => d.cs(x as f32, false),
@@ -319,9 +332,10 @@ pub fn main(args: &[String]) -> i32 {
                     format!("{:?}|{:?}", d.calculate(map), Performance::new(map).difficulty(d.clone()).accuracy(97.0).calculate())
                 });
                 if a != b {
-                    mism.push(json!({"what": "difficulty_adjust_vs_override", "mode": mode, "field": field, "value": x, "osu_text": text,
+                    mism.push(json!({"what": "difficulty_adjust_vs_override", "mode": mode, "field": field, "value": x, "with": with, "osu_text": text,
                         "expected": format!("{b:?}").chars().take(500).collect::<String>(), "observed": format!("{a:?}").chars().take(500).collect::<String>()}));
                 }
+              }
             }
         }
     }
